@@ -138,6 +138,9 @@ def classify(rec, clauses):
 def run(ctx):
     thorough = ctx.tier == "thorough"
     ctx.mc("MC_FaceTopology", "MC_FaceTopology_thorough.cfg" if thorough else "MC_FaceTopology_quick.cfg")
+    if thorough:
+        for shape in ("3x1", "1x3", "2x1N3", "1x1"):
+            ctx.mc("MC_FaceTopology", f"MC_FaceTopology_{shape}.cfg", workers=8)
     rng = random.Random(ctx.seed * 32452843 + 5)
     n = 12000 if thorough else 700
     cases = [gen_case(rng, k + 1, nmax=3) for k in range(n)]
